@@ -10,3 +10,8 @@ def run(drv, seed):
         viol += [(b, dict(x, sig=x["sig"].replace("C19.", "C01."), rule=x["rule"].replace("C19.", "C01."))) for b, x in v]
         inc += i
     return extra, viol, inc
+
+
+def quick(drv, seed):
+    """Quick tier: instruction-count scaling on every 4th family (deterministic, ~5 s)."""
+    return sanit.cachegrind_scaling(drv, n_small=1500, factor=4, step=4)
